@@ -272,6 +272,8 @@ func jobsFor(prop, tier string) []*Job {
 	case "C09":
 		bd := "lockset analysis on the real SSA: each pair of entry points is executed from the same instance with every read/write of a shared cell or map logged together with the mutexes held (and their mode); a conflicting pair of accesses without a common excluding lock is a data race of two goroutines; 2 goroutines"
 		add(&Job{Name: "metrics", Pkg: "memmetrics", Harness: "VerifC09Metrics", Grid: 1e9, Bounds: bd})
+		add(&Job{Name: "metrics-no-lost-update", Pkg: "memmetrics", Harness: "VerifC09NoLostUpdate", Grid: 1e9,
+			Bounds: "two Record calls with symbolic codes, the second running to completion at any one lock boundary of the first (two-thread sequentialisation): totals, network errors and per-code counts all account for both"})
 		add(&Job{Name: "roundrobin", Pkg: "roundrobin", Harness: "VerifC09Balancers", Grid: 1e9, Bounds: bd})
 		add(&Job{Name: "rebalancer", Pkg: "roundrobin", Harness: "VerifC09Rebalancer", Grid: 1e9, Bounds: bd})
 		add(&Job{Name: "connlimit", Pkg: "connlimit", Harness: "VerifC09ConnLimiter", Bounds: bd})
